@@ -22,7 +22,7 @@ PROP_ASSUMPTIONS = {}
 BOUNDED = {}
 _NUC_VEC = ['Vector constructors from iterator ranges that are not pointers; reverse iterators (rbegin/rend/crbegin/crend); operator<=> (C++20); swap2 with size types other than 8/16 bit',
             'allocators other than amc::allocator (the allocate-relocate-deallocate path is exercised through the non trivially relocatable category only); element types with throwing moves; 32/64-bit and signed size types of the vectors']
-_NUC_FS = ['FlatSet: <, <=, >, >=, <=>; at / operator[] / front / back / data; reverse iterators; heterogeneous (transparent) lookups; insert(initializer_list), operator=(initializer_list), operator=(vector&&) (same code path as the bounded insert(first,last) / construction from a vector); copy assignment',
+_NUC_FS = ['FlatSet: <=> (C++20); the polarity of <, <=, >, >= (the contracts pin the operand order and the ranges of the one lexicographical comparison, L0 returns an abstract result); reverse iterators; heterogeneous (transparent) lookups; insert(initializer_list), operator=(initializer_list), operator=(vector&&) (same code path as the bounded insert(first,last) / construction from a vector); copy assignment',
            'FlatSet merge x2, insert(first,last), construction from a vector: bounded stand-ins only (see coverage.bounded)']
 _NUC_SS = ['SmallSet: comparison operators (is_permutation, lambdas, std::visit), insert(first,last), insert(initializer_list), constructors / destructor / copy / move, the std::set-backed instantiation (variant iterators), rbegin/rend',
            'SmallSet::merge: bounded stand-in only (see coverage.bounded); SmallSet large state = abstract SetSpec (FlatSet single-element operations are proved against the same step function in the fs.* units)']
@@ -191,6 +191,14 @@ def units():
               'uninitialized_value_construct_n__pE_u8_penable_if_is_trivial_iterator_traits_pE__value_type__value__type']:
         add('mem14.%s.NR' % m[:48], m, ['C15', 'C02', 'C09'], 2, 'StdVectorBase_E_A_u8', 'u8', 'ElemNR', throws_reachable=not (m.startswith('destroy') or '_move_n_' in m or '_relocate_n_' in m))
         us[-1]['cfg'] = 'main14dbg'
+    # public _n wrappers and the [first, last) forms (C++14 extraction, pointer iterators)
+    import re as _re
+    for m, thr in [('uninitialized_copy_n__pE_u8_pE', True), ('uninitialized_move_n__pE_u8_pE', False), ('uninitialized_relocate_n__pE_u8_pE', False),
+                   ('uninitialized_copy__pE_pE_pE__1f0c33', True), ('uninitialized_copy__pE_pE_pE__fc08c5', True), ('uninitialized_move__pE_pE_pE', False), ('uninitialized_relocate__pE_pE_pE', False)]:
+        add('mem14.%s.NR' % _re.sub(r'\W', '', m), m, ['C15', 'C02', 'C09'], 2, 'StdVectorBase_E_A_u8', 'u8', 'ElemNR', throws_reachable=thr)
+        us[-1]['cfg'] = 'main14dbg'
+        if m.startswith(('uninitialized_move__', 'uninitialized_relocate__')):
+            us[-1]['defs']['WITH_EXT_MEM'] = '1'
     DEFN = 'uninitialized_default_construct_n__pE_u8_penable_if_is_trivially_default_constructible_iterator_traits_pE__value_type__value__type'
     for elem in ('ElemNR', 'ElemTR', 'ElemTC'):
         et = ELEM_TAG[elem]
